@@ -65,7 +65,7 @@ def r1(rep, prog, tab, cfg):
             return [("REC", sf, c.bb)]
         return None
     meths = broker.methods(prog)
-    rep.floor("C09-R1", "Broker methods (%s)" % cfg, len(meths), 50)
+    rep.floor("C09-R1", "Broker methods (%s)" % cfg, len(meths), 35)
     n_mut = 0
     n_mirror = [0]
     seen_groups = set()
@@ -331,5 +331,5 @@ def r5(rep, prog):
             rep.check(not bad, "C09-R5", b.def_, "owner-mirror:%s" % end,
                       "remove_channel_end is called without the owning connection (%s): the channel end is closed but the cookie stays in the connection's senders/receivers set, so tearing the connection down closes the end again" % "; ".join(bad),
                       line=c.line, detail={"owner": sorted(b.describe(c.args[4]))})
-    rep.floor("C09-R5", "remove_channel_end call sites", n, 7)
+    rep.floor("C09-R5", "remove_channel_end call sites", n, 4)
     rep.floor("C09-R5", "None-owner sites with unclaimed evidence", n_none, 2)
